@@ -32,7 +32,9 @@ RULE = ("generated: grammar-valid requests/responses with legitimate variation (
         "duplicated / corrupted or one policy violated (version list, origin allow-list look-alikes, connection limit, "
         "subprotocol, extension) = must-reject; leniencies = grey; byte-mutated, random, oversized, truncated and web-status "
         "inputs = hostile (classified by the same oracle, the verdict is enforced). Systematic part: every reject mutation x every "
-        "segmentation policy, every origin look-alike of every allow-list x both origin headers, every connection-limit boundary "
+        "segmentation policy, every origin look-alike of every fixed allow-list x both origin headers, generated allow-lists of 1..4 entries "
+        "(exact with/without port, '*' in scheme/sub-domain/port) with the genuine origin and every look-alike kind (suffix, prefix, port "
+        "extension/cut/other, sub-/super-domain, scheme swap, dot-as-wildcard) of EVERY list position, every connection-limit boundary "
         "(limit-1, limit, limit+1, limit+2 with 0-2 closed earlier connections), every wrong-digest variant. Random part: the rest, plus "
         "client URL component grids and the client x server option matrix. Every case runs under one of 5 read segmentations (incl. "
         "1-byte trickle) in the Twisted and the asyncio world. A case is non-trivial when the handshake monitor compared an outcome with "
@@ -55,7 +57,8 @@ DECIDING = {"server_must_accept_opened": 200, "server_must_reject_refused": 200,
             "client_must_accept_opened": 100, "client_must_reject_refused": 100, "client_reject_classes": 10, "client_reject_mutations": 20,
             "digests_recomputed": 200, "client_requests_compared": 100, "hostile_inputs_monitored": 500, "open_after_timeout_checked": 100,
             "timeouts_evaluated": 20, "oversized_dropped_at_timeout": 5, "matrix_pairs_opened": 50, "matrix_pairs_refused": 20,
-            "matrix_messages_exchanged": 50, "grey_cases": 50, "segmentations": 15}
+            "matrix_messages_exchanged": 50, "grey_cases": 50, "segmentations": 15,
+            "origin_lookalikes_nonlast_judged": 100, "origin_genuine_accepted": 100, "origin_lookalike_classes": 40, "origin_genuine_positions": 15}
 
 OPEN_TIMEOUT = 5
 
@@ -223,12 +226,129 @@ def finish_case(rng, case, data=None):
 # server side: configurations and requests
 # ------------------------------------------------------------------------------------------------
 
+# --- generated origin policies: allow-lists of 1..4 entries, genuine origins and look-alikes of EVERY position -----------------
+O_LABELS = ["good", "shop", "app", "portal", "api", "cdn", "intra", "www", "auth", "pay"]
+O_TLDS = ["example", "example.org", "example.com", "corp.test"]
+O_ENTRY_KINDS = ["exact-port", "exact-port", "exact-port", "exact-noport", "wild-sub", "wild-sub-port", "wild-port", "wild-scheme"]
+O_LOOKALIKES = ["suffix", "prefix", "port-ext", "port-ext", "port-ext", "port-ext", "port-cut", "sub-domain", "super-domain", "scheme-swap",
+                "dot-wildcard", "suffix-noport", "suffix-noport", "port-other"]
+
+
+def _oser(scheme, host, port, rng=None):
+    """Serialized origin (RFC 6454 6.2).  port None = omitted."""
+    if port is not None and rng is not None and port == {"http": 80, "https": 443}[scheme] and rng.random() < 0.5:
+        port = None
+    return "%s://%s%s" % (scheme, host, "" if port is None else ":%d" % port)
+
+
+def gen_origin_policy(rng, n=None):
+    """-> {"allowed": [...], "entries": [{"kind", "pattern", "base": (scheme, host, port|None), "genuine": bool}]}
+    base = a concrete origin the entry stands for (wildcards instantiated); an 'exact-noport' entry can never match (the matching
+    form always carries the port) and therefore has no genuine origin - it only has look-alikes."""
+    n = n or rng.choice([1, 2, 2, 3, 3, 4])
+    labels = rng.sample(O_LABELS, n)
+    entries = []
+    for lab in labels:
+        kind = rng.choice(O_ENTRY_KINDS)
+        host = "%s.%s" % (lab, rng.choice(O_TLDS))
+        scheme = rng.choice(["http", "https"])
+        dflt = {"http": 80, "https": 443}[scheme]
+        port = rng.choice([dflt, dflt, 8080, 8443, 9000, 81])
+        sub = rng.choice(["a", "a.b", "x-1", "dev"])
+        if kind == "exact-port":
+            pat, base = "%s://%s:%d" % (scheme, host, port), (scheme, host, port)
+        elif kind == "exact-noport":
+            pat, base = "%s://%s" % (scheme, host), (scheme, host, None)
+        elif kind == "wild-sub":
+            pat, base = "*://*.%s:*" % host, (scheme, sub + "." + host, port)
+        elif kind == "wild-sub-port":
+            pat, base = "%s://*.%s:%d" % (scheme, host, port), (scheme, sub + "." + host, port)
+        elif kind == "wild-port":
+            pat, base = "%s://%s:*" % (scheme, host), (scheme, host, port)
+        else:
+            pat, base = "*://%s:%d" % (host, port), (scheme, host, port)
+        entries.append({"kind": kind, "pattern": pat, "base": list(base), "genuine": kind != "exact-noport"})
+    return {"allowed": [e["pattern"] for e in entries], "entries": entries}
+
+
+def origin_lookalike_of(rng, base, kind):
+    """A strictly serialized origin that LOOKS like ``base`` = (scheme, host, port|None); None when not constructible."""
+    scheme, host, port = base
+    eff = port if port is not None else {"http": 80, "https": 443}[scheme]
+    if kind == "suffix":
+        return _oser(scheme, host + rng.choice([".evil.test", ".attacker.example", "x", "-evil.test"]), eff, rng)
+    if kind == "suffix-noport":
+        return _oser(scheme, host + rng.choice([".evil.test", ".a", "x.test"]), None)
+    if kind == "prefix":
+        return _oser(scheme, rng.choice(["evil", "x", "not-"]) + host, eff, rng)
+    if kind == "port-ext":
+        p2 = eff * 10 + rng.randrange(10)
+        return _oser(scheme, host, p2) if p2 <= 65535 else None
+    if kind == "port-cut":
+        return _oser(scheme, host, eff // 10) if eff >= 10 else None
+    if kind == "port-other":
+        return _oser(scheme, host, rng.choice([q for q in (80, 443, 8080, 8000, 1, 65535) if q != eff]))
+    if kind == "sub-domain":
+        return _oser(scheme, rng.choice(["sub.", "a.b.", "evil."]) + host, eff, rng)
+    if kind == "super-domain":
+        return _oser(scheme, host.split(".", 1)[1], eff, rng) if host.count(".") >= 2 else None
+    if kind == "scheme-swap":
+        return _oser({"http": "https", "https": "http"}[scheme], host, eff)
+    if kind == "dot-wildcard":
+        k = host.rfind(".")
+        return _oser(scheme, host[:k] + "x" + host[k + 1:], eff, rng)
+    raise ValueError(kind)
+
+
+def oracle_origin_allowed(allowed, origin):
+    """Whole-origin decision of the independent matcher; None = not a strict serialization (grey)."""
+    norm = H.normalize_origin(origin)
+    if norm is None:
+        return None
+    return any(H.glob_match(p_, norm) for p_ in allowed)
+
+
+def pick_policy_origin(rng, policy, want, pos=None, kind=None):
+    """-> (origin, meta) with the ORACLE's decision == want ('accept' | 'reject'), or None."""
+    n = len(policy["entries"])
+    for _ in range(60):
+        if pos is not None:
+            i = pos
+        elif n > 1 and want == "reject" and rng.random() < 0.6:
+            i = rng.randrange(n - 1)          # look-alikes of NON-LAST entries: a joined/alternated pattern anchors only its ends
+        else:
+            i = rng.randrange(n)
+        e = policy["entries"][i]
+        if want == "accept":
+            if not e["genuine"]:
+                if pos is not None:
+                    return None
+                continue
+            o, k = _oser(*e["base"], rng=rng), "genuine"
+        else:
+            k = kind or rng.choice(O_LOOKALIKES)
+            o = origin_lookalike_of(rng, tuple(e["base"]), k)
+            if o is None:
+                if kind is not None and pos is not None:
+                    return None
+                continue
+        dec = oracle_origin_allowed(policy["allowed"], o)
+        if dec is (want == "accept"):
+            return o, {"pos": i, "n": n, "kind": k, "entry": e["kind"]}
+        if pos is not None and kind is not None and want == "reject":
+            return None
+    return None
+
+
 def gen_server_cfg(rng, want=None):
     sc = rng.choice(ORIGIN_SCENARIOS) if rng.random() < 0.6 else ORIGIN_SCENARIOS[0]
     cfg = {"versions": rng.choice([[8, 13], [8, 13], [13], [8], [13, 8]]), "scenario": sc["name"], "origins": list(sc["allowed"]),
            "null": rng.random() < 0.5, "maxc": 0, "prior": 0, "closed": 0, "xport": rng.choice([None, None, None, 9000, 443]),
            "webstatus": rng.random() < 0.7, "protos": rng.sample(PROTO_POOL, rng.randint(0, 4)), "pmce": rng.random() < 0.5,
            "trust": rng.choice([0, 0, 1, 2]), "oht": rng.choice([1, 2, 5]), "flash": rng.random() < 0.05}
+    if rng.random() < 0.35:
+        pol = gen_origin_policy(rng)
+        cfg["scenario"], cfg["origins"], cfg["policy"] = "generated-%d" % len(pol["allowed"]), list(pol["allowed"]), pol
     if want == "limit" or (want is None and rng.random() < 0.25):
         cfg["maxc"] = rng.randint(1, 4)
         cfg["prior"] = rng.randint(0, cfg["maxc"] + 2)
@@ -272,7 +392,14 @@ def accept_request_spec(rng, cfg):
     sc = scenario_of(cfg)
     r = rng.random()
     oname = "Origin" if ver >= 13 else "Sec-WebSocket-Origin"
-    if r < 0.55:
+    if cfg.get("policy"):
+        got = pick_policy_origin(rng, cfg["policy"], "accept") if r < 0.75 else None
+        if got:
+            hs.append([oname, got[0]])
+            cfg["ometa"] = got[1]
+        elif r > 0.9 and cfg["null"]:
+            hs.append([oname, "null"])
+    elif r < 0.55:
         hs.append([oname, rng.choice(sc["accept"])])
     elif r < 0.65 and cfg["null"]:
         hs.append([oname, "null"])
@@ -394,6 +521,19 @@ def server_reject_mutations(cfg):
             sp["h"].insert(1, ["sec-websocket-protocol", "superchat, wamp.2.json", "", ""])
 
     def origin_lookalike(rng, sp, ver, cfg):
+        if rng.random() < 0.7:
+            pol = gen_origin_policy(rng)
+            got = pick_policy_origin(rng, pol, "reject")
+            if got:
+                cfg["scenario"], cfg["origins"], cfg["policy"] = "generated-%d" % len(pol["allowed"]), list(pol["allowed"]), pol
+                hdel(sp, "Origin")
+                hdel(sp, "Sec-WebSocket-Origin")
+                sp["h"].append(["Origin" if ver >= 13 else "Sec-WebSocket-Origin", got[0], " ", ""])
+                sp["_sub"] = got[1]["kind"]
+                cfg["ometa"] = got[1]
+                return
+        cfg.pop("policy", None)
+        cfg.pop("ometa", None)
         scs = [s for s in ORIGIN_SCENARIOS if s["reject"]]
         sc = rng.choice(scs)
         cfg["scenario"], cfg["origins"] = sc["name"], list(sc["allowed"])
@@ -405,6 +545,7 @@ def server_reject_mutations(cfg):
 
     def origin_null(rng, sp, ver, cfg):
         cfg["null"] = False
+        cfg.pop("ometa", None)
         hdel(sp, "Origin")
         hdel(sp, "Sec-WebSocket-Origin")
         sp["h"].append(["Origin" if ver >= 13 else "Sec-WebSocket-Origin", "null", " ", ""])
@@ -464,6 +605,8 @@ def server_grey_mutations():
         hdup(sp, "Sec-WebSocket-Version", rng.choice([None, "7", "13", "8"]))
 
     def origin_duplicate(rng, sp, ver, cfg):
+        cfg.pop("ometa", None)
+        cfg.pop("policy", None)
         hdel(sp, "Origin")
         hdel(sp, "Sec-WebSocket-Origin")
         n = "Origin" if ver >= 13 else "Sec-WebSocket-Origin"
@@ -471,6 +614,8 @@ def server_grey_mutations():
         sp["h"].append([n, rng.choice(["http://good.com", "http://evil.com"]), " ", ""])
 
     def origin_malformed(rng, sp, ver, cfg):
+        cfg.pop("ometa", None)
+        cfg.pop("policy", None)
         hdel(sp, "Origin")
         hdel(sp, "Sec-WebSocket-Origin")
         sc = rng.choice(ORIGIN_SCENARIOS)
@@ -1236,6 +1381,17 @@ def run_server_case(case, R, fw):
             return probs
 
         fired = judge("server", case, s, w, R, fw, data, verdict, ocfg, cfg["oht"], w.world.now(), post)
+        om = cfg.get("ometa")
+        if om and fired and not _all_escaped(w):
+            where = "last" if om["pos"] == om["n"] - 1 else "nonlast"
+            if verdict.cls == "reject" and "origin-not-allowed" in verdict.reasons and om["kind"] != "genuine":
+                R.count("origin_lookalikes_judged")
+                if om["n"] > 1 and where == "nonlast":
+                    R.count("origin_lookalikes_nonlast_judged")
+                R.seen("origin_lookalike_classes", "%s/%s/pos%d-of-%d" % (om["kind"], om["entry"], om["pos"], om["n"]))
+            elif verdict.cls == "accept" and om["kind"] == "genuine":
+                R.count("origin_genuine_accepted")
+                R.seen("origin_genuine_positions", "%s/pos%d-of-%d" % (om["entry"], om["pos"], om["n"]))
         if fired:
             R.seen("nontrivial", h([fw, "server", case["tag"], cfg, case["seg"], case.get("data") or case.get("recipe")]))
         R.seen("segmentations", "server/" + case["seg"])
@@ -1358,8 +1514,15 @@ def gen_matrix_case(rng):
         origin = rng.choice(sc["reject"])[1]
     else:
         origin = "null"
+    sc_name, sc_allowed = sc["name"], list(sc["allowed"])
+    if rng.random() < 0.4:
+        # generated allow-list of 1..4 entries; genuine origin or look-alike of ANY position (the matrix oracle decides with the same matcher)
+        pol = gen_origin_policy(rng)
+        got = pick_policy_origin(rng, pol, rng.choice(["accept", "accept", "reject", "reject", "reject"]))
+        if got:
+            sc_name, sc_allowed, origin = "generated-%d" % len(pol["allowed"]), list(pol["allowed"]), got[0]
     maxc = rng.choice([0, 0, 0, 1, 2, 3])
-    s = {"versions": rng.choice([[8, 13], [8, 13], [8, 13], [13], [8]]), "scenario": sc["name"], "origins": list(sc["allowed"]), "null": rng.random() < 0.5,
+    s = {"versions": rng.choice([[8, 13], [8, 13], [8, 13], [13], [8]]), "scenario": sc_name, "origins": sc_allowed, "null": rng.random() < 0.5,
          "maxc": maxc, "prior": rng.randint(0, maxc + 1) if maxc else rng.choice([0, 0, 1]), "xport": rng.choice([None, None, port, port, port + 1]),
          "protos": rng.sample(PROTO_POOL, rng.randint(0, 4)), "pmce": rng.choice(M_SERVER_PMCE),
          "headers": rng.choice([None, None, {"X-Srv": "a"}, {"X-Srv": ["a", "b"], "Set-Cookie": "s=1"}]),
@@ -1558,6 +1721,28 @@ def systematic_cases(rng):
                 sp["h"].append(["Origin" if ver >= 13 else "Sec-WebSocket-Origin", o, " ", ""])
                 tag = "accept/origin/%s" % sc["name"] if kind == "ok" else "reject/origin-lookalike/%s" % kind
                 out.append(finish_case(rng, {"kind": "server", "tag": tag, "cfg": cfg}, build_msg(sp)))
+    # generated allow-lists of 1..4 entries: genuine origin and every look-alike kind of EVERY position
+    kinds = sorted(set(O_LOOKALIKES))
+    for n_entries in (1, 2, 2, 3, 3, 4, 4):
+        pol = gen_origin_policy(rng, n_entries)
+        for pos in range(n_entries):
+            for kind in ["genuine"] + kinds:
+                got = pick_policy_origin(rng, pol, "accept", pos=pos) if kind == "genuine" else pick_policy_origin(rng, pol, "reject", pos=pos, kind=kind)
+                if not got:
+                    continue
+                ver = rng.choice([13, 13, 8])
+                cfg = gen_server_cfg(rng)
+                cfg.update(scenario="generated-%d" % n_entries, origins=list(pol["allowed"]), policy=pol, versions=[8, 13], maxc=0, prior=0, closed=0,
+                           xport=None, ometa=got[1])
+                cfg["policy"] = pol
+                sp, _ = accept_request_spec(rng, cfg)
+                cfg["ometa"] = got[1]
+                hdel(sp, "Origin")
+                hdel(sp, "Sec-WebSocket-Origin")
+                hset(sp, "Sec-WebSocket-Version", str(ver))
+                sp["h"].append(["Origin" if ver >= 13 else "Sec-WebSocket-Origin", got[0], " ", ""])
+                tag = "accept/origin-policy/genuine" if kind == "genuine" else "reject/origin-lookalike/%s" % kind
+                out.append(finish_case(rng, {"kind": "server", "tag": tag, "cfg": cfg}, build_msg(sp)))
     # connection limit boundaries
     for maxc in (1, 2, 3, 5):
         for closed in (0, 1, 2):
@@ -1667,7 +1852,8 @@ def run_shard(params, R):
         raise RuntimeError("NVX selection mismatch: wanted %s, USES_NVX=%s" % (nvx, W.USES_NVX))
     tier, part, parts, seed = params["tier"], params["part"], params["parts"], params["seed"]
     for k in DECIDING:
-        if k not in ("server_reject_classes", "client_reject_classes", "server_reject_mutations", "client_reject_mutations", "segmentations"):
+        if k not in ("server_reject_classes", "client_reject_classes", "server_reject_mutations", "client_reject_mutations", "segmentations",
+                     "origin_lookalike_classes", "origin_genuine_positions"):
             R.count(k, 0)
     rng = random.Random((seed * 1000003 + part * 7919 + (17 if fw == "aio" else 0) + (31 if nvx else 0)) & 0xFFFFFFFF)
     # ---- systematic families: generated from the seed alone (same list in every shard), dealt round-robin
@@ -1717,7 +1903,8 @@ MANIFEST_ENTRY = {
              "fields, token lists, split list fields, trailing frame, connection count AT the limit); must-reject = exactly one required element "
              "removed/duplicated/corrupted or one policy violated (method, HTTP version, Host, Upgrade/Connection tokens, key length/alphabet/padding, "
              "version not configured, duplicate subprotocol, origin look-alikes such as good.com.evil.com / evilgood.com / port prefixes against "
-             "four allow-lists, null origin, connection limit exceeded after a history of opened and closed connections, wrong/duplicate/truncated "
+             "four fixed allow-lists and against generated allow-lists of 1..4 entries with look-alikes (and genuine origins) derived from every "
+             "list position, decided by an independent whole-origin matcher, null origin, connection limit exceeded after a history of opened and closed connections, wrong/duplicate/truncated "
              "accept digest, foreign subprotocol, unknown/unoffered/declined extension, required field hidden behind U+0085). Accepted handshakes are "
              "checked for the right Sec-WebSocket-Accept, a subprotocol from the client's list, only offered extensions, and for staying open "
              "past the opening-handshake timeout; endpoints still waiting must be dropped by that timeout. Client requests are compared with the "
